@@ -475,6 +475,19 @@ def r3_r4(run: Run, rt):
                     sites.append(('re', c, subj, sm))
         if len(sites) < 2:
             raise AnalysisError('C17.R3', f'_search: expected a plain and a wildcard search site, found {len(sites)}')
+        # exits that are taken before any search: they may depend on the start position and on the length of the text searched
+        # in, never on the length of the pattern -- a pattern is not as long as what it matches (`*` matches nothing, `~?` is one
+        # character)
+        from .common import flat_conditions
+        first_site = min(c.lineno for _, c, _, _ in sites)
+        for r_ in [n for n in ast.walk(fn) if isinstance(n, ast.Return) and n.lineno < first_site]:
+            cs = flat_conditions(path_conditions(fn, r_, parents))
+            uses = [t for t, pol in cs if any(isinstance(x, ast.Call) and isinstance(x.func, ast.Name) and x.func.id == 'len' and x.args and
+                                               isinstance(x.args[0], ast.Name) and x.args[0].id == find for x in ast.walk(t))]
+            run.check(not uses, 'C17.R3', f'_search[{cp.label}]/early exit `{ast.unparse(r_)[:30]}`', 'exit-on-pattern-length',
+                      f'_search returns `{ast.unparse(r_.value)[:30] if r_.value is not None else None}` before searching when '
+                      f'`{ast.unparse(uses[0])[:70] if uses else ""}`: the length of the pattern says nothing about the length of a match '
+                      f'("a*b" matches "ab", "~?" matches "?")', fact='early exits do not read the pattern length', loc=cp.loc(r_))
         for kind, c, subj, sm in sites:
             construct = f'_search[{cp.label}]/{"plain" if kind == "find" else "wildcard"} path'
             if kind == 'find':
